@@ -151,15 +151,15 @@ class Runner:
         self.stats = collections.Counter()
         self.classes = collections.Counter()
         self.pending, self.disagree, self.notbuilt = [], [], []
-        self.shrink_deadline = time.time() + 150
+        self.shrink_deadline = time.time() + 100
 
     def stream(self, name, **kw):
         c, st = self.c, self.stats
         runs, skips, stats, defs_bad = run_stream(self.hb, **kw)
         # generated packages that do not compile are a code-generation defect outside this property (C02): they
         # are counted per diagnostic, and must stay the exception (otherwise the stream observes nothing)
-        nb = [r for r in runs if r.impl == "notbuilt"]
-        runs = [r for r in runs if r.impl != "notbuilt"]
+        nb = [r for r in runs if r.impl == "notbuilt" and r.builder == "-"]
+        runs = [r for r in runs if not (r.impl == "notbuilt" and r.builder == "-")]
         built, unbuilt = {r.case.id for r in runs}, {r.case.id for r in nb}
         for r in nb:
             st["notbuilt:" + diag_family(r.verdict)] += 1
@@ -217,7 +217,7 @@ class Runner:
 
     def shrink(self, r):
         want = " ".join(r.verdict.split(" ")[:2])
-        fam = diag_family(r.verdict) if r.impl == "notbuilt" else None     # a not-built case keeps its diagnostic while shrinking
+        fam = diag_family(r.verdict) if r.impl == "notbuilt" and r.builder == "-" else None     # a not-built case keeps its diagnostic while shrinking
         best = (pinned_line(r), case_text(r))
         if time.time() > self.shrink_deadline:
             return best
@@ -251,7 +251,7 @@ class Runner:
     def report(self):
         c = self.c
         seen, reported = set(), 0
-        self.shrink_deadline = time.time() + 150
+        self.shrink_deadline = time.time() + 100
         for name, r, text in self.pending:
             cls = re.sub(r"[0-9]+", "N", r.verdict)
             cls = re.sub(r"\b(builder|option)=\S+", "", cls)
